@@ -532,7 +532,7 @@ func runSegment(hb *harness.B, seg segSpec) {
 func main() {
 	harness.Main(harness.Spec{
 		ID:   "C10",
-		Rule: "(1) every binary wire entry point (all decoders of the wirereg registry) x {own valid encodings of generated values, their prefixes, single/multi-byte mutations, every 8-byte window overwritten with 0,1,remaining-1,remaining,remaining+1,2^16,2^20,2^22,2^24,2^25,2^31,2^32-1,2^32,2^32+1,2^62,2^63-1,2^63,2^64-1, tails, semi-random words, random bytes, deep/wide policy nests}; every UnmarshalJSON/UnmarshalText/Parse* function and the JSON form of the composite types x {own valid output, prefixes, byte edits, numeric tokens -> exponents/long digits/negative/huge, hex tokens -> overlong/odd/truncated, nests, JSON tree attacks: map keys and indices out of range, wrong types, huge numbers, hostile strings, deep nesting, repeated elements}; (2) every block accepted on chaingen histories of six network families (incl. the legacy ephemeral window) x hostile operators (currency extremes/pairs/compensated sums, siafund values, covered-field and key indices, proof lengths, leaf indices, parents duplicated/missing/swapped, deep/wide policies, uint64 extremes, resolution types, rollover/ephemeral-claim/fee overflow constructions, payouts), re-signed, re-sealed, validated at transaction and block level; (3) every accepted block applied and reverted. Oracles: recover()+journal crash monitor, TotalAlloc <= 1 MiB + 1024*len(input) (windows of <=64 calls / 16 KiB triggered at the bound of their shortest input, bisect, verdict from the solo run; site from a sampled heap profile), thread CPU <= max(100 ms, 10^4 x per-byte cost calibrated on the valid inputs of the same entry point) (solo confirmed). distinct = (entry point or operator, attack class, value/field class, era, outcome).",
+		Rule: "(1) every binary wire entry point (all decoders of the wirereg registry) x {own valid encodings of generated values, their prefixes, single/multi-byte mutations, every 8-byte window overwritten with 0,1,remaining-1,remaining,remaining+1,2^16,2^20,2^22,2^24,2^25,2^31,2^32-1,2^32,2^32+1,2^62,2^63-1,2^63,2^64-1, tails, semi-random words, random bytes, deep/wide policy nests}; every UnmarshalJSON/UnmarshalText/Parse* function and the JSON form of the composite types x {own valid output, prefixes, byte edits, numeric tokens -> exponents/long digits/negative/huge, hex tokens -> overlong/odd/truncated, nests, JSON tree attacks: map keys and indices out of range, wrong types, huge numbers, hostile strings, deep nesting, repeated elements}; (2) every block accepted on chaingen histories of six network families (incl. the legacy ephemeral window) x hostile operators (currency extremes/pairs/compensated sums, siafund values, covered-field and key indices, proof lengths, leaf indices, parents duplicated/missing/swapped, deep/wide policies, uint64 extremes, resolution types, rollover/ephemeral-claim/fee overflow constructions, payouts), re-signed, re-sealed, validated at transaction and block level; (3) every accepted block applied and reverted. Oracles: recover()+journal crash monitor, TotalAlloc <= 1 MiB + 1024*len(input) (windows of <=64 calls / 16 KiB triggered at the bound of their shortest input, bisect, verdict from the solo run; site from a sampled heap profile), thread CPU <= max(250 ms, 10^4 x per-byte cost calibrated in the same run on the same entry point) (solo confirmed). distinct = (entry point or operator, attack class, value/field class, era, outcome).",
 		Assume: []string{
 			"supplements and ancestor timestamps are the caller's trusted inputs: variants get the supplement the store model builds for them",
 			"only wire-representable objects are validated: a variant transaction is first encoded and decoded with its own codec and the DECODED object is validated (objects whose Encode panics or whose bytes the decoder refuses are counted as decoder cases only)",
